@@ -39,7 +39,7 @@ MODELS = {
     # liveness under weak fairness: everything sent is answered, received, and the system rests
     "srv_live": ("MC_Server.tla", "MC_Server_live.cfg", 1200, ["interim_sent", "pipelined_yield"]),
     # write side: every interleaving of <= 4 enqueues with every stream outcome per write
-    "mc_write": ("MC_Write.tla", "MC_Write.cfg", 600, ["short_write", "two_in_flight", "failure_with_queue", "invalid_write", "all_written"]),
+    "mc_write": ("MC_Write.tla", "MC_Write.cfg", 600, ["short_write", "two_in_flight", "failure_with_queue", "invalid_write", "all_written", "cleared_mid_response"]),
     # algebraic facts of the function-level operators on enumerated domains
     "mc_fn_quick": ("MC_Fn.tla", "MC_Fn_quick.cfg", 1800, ["oneshot_accepts", "conn_one_clean", "hdr_fatal", "hdr_lastwins", "abs_uri", "route_dup", "route_hit"]),
     "mc_fn": ("MC_Fn.tla", "MC_Fn_thorough.cfg", 3600, ["oneshot_accepts", "conn_one_clean", "hdr_fatal", "hdr_lastwins", "abs_uri", "route_dup", "route_hit"]),
@@ -248,6 +248,90 @@ def gen_conn_replay(pid, tier, seed):
     V.log("%s: %d TLC-generated behaviours replayed on the real connection (TLC %.0fs), %d mismatches, %d crashes" % (tag, len(behaviours), time.time() - t0, len(mism), len(crashes)))
     return {"behaviours": len(behaviours), "scripts": scripts, "mismatches": mism, "crashes": crashes, "reads": sum(len(b) for b in behaviours)}
 
+
+# ---------------------------------------------------------------------------
+# specification -> implementation, write side: EVERY history of <= HistMax calls of Gen_Write
+# ---------------------------------------------------------------------------
+GW_RESP = {1: {"v": "1.1", "code": 204, "ops": []},
+           2: {"v": "1.0", "code": 200, "ops": [{"op": "body", "bytes": [65 + (i % 26) for i in range(300)]}]},
+           3: {"v": "1.1", "code": 404, "ops": [{"op": "depr"}, {"op": "body", "bytes": [97 + (i % 26) for i in range(3000)]}]}}
+
+def gen_write_replay(pid, tier, seed):
+    """TLC model-checks Gen_Write (the history of calls is a variable, so every distinct history of at most
+    HistMax calls is a state) and prints each history with the result the specification predicts for every
+    call; all of them are executed on the real HttpConnection (abstract lengths -> real responses, 'accept j
+    of r' -> a real short write) and (a) compared call by call with TLC's predictions, (b) validated byte for
+    byte by Trace_Conn."""
+    binpath = V.build_harness("full")
+    depth, maxlen = (6, 2) if tier == "quick" else (7, 3)
+    cfg = os.path.join(V.WORK, "genwrite-%s.cfg" % pid)
+    txt = open(os.path.join(V.SPEC, "Gen_Write.cfg")).read()
+    txt = re.sub(r"HistMax = \d+", "HistMax = %d" % depth, txt)
+    txt = re.sub(r"MaxLen = \d+", "MaxLen = %d" % maxlen, txt)
+    open(cfg, "w").write(txt)
+    metadir = os.path.join(V.WORK, "tlc", "genwrite-" + pid)
+    outp = os.path.join(V.WORK, "genwrite-%s.out" % pid)
+    t0 = time.time()
+    with open(outp, "w") as fo:
+        V.sh(V.tlc_cmd(os.path.join(V.SPEC, "Gen_Write.tla"), cfg, metadir, 8), timeout=3600, cwd=V.SPEC, stdout=fo)
+    out = open(outp).read()
+    os.remove(outp)
+    import shutil
+    shutil.rmtree(metadir, ignore_errors=True)
+    if "Model checking completed. No error has been found." not in out:
+        raise V.ToolError("Gen_Write did not complete: " + out[-600:])
+    hists = []
+    for m in re.finditer(r'^"REPLAY (.*)"$', out, re.M):
+        hists.append(json.loads(json.loads('"' + m.group(1) + '"')))
+    if not hists:
+        raise V.ToolError("Gen_Write produced no history")
+    tag = "%s-genwrite" % pid
+    scripts = os.path.join(V.WORK, tag + ".scripts")
+    with open(scripts, "w") as f:
+        for i, h in enumerate(hists):
+            ev = []
+            for k, a in enumerate(h):
+                if a["e"] == "enq":
+                    ev.append({"e": "enq", "resp": GW_RESP[a["n"]]})
+                elif a["e"] == "clear":
+                    ev.append({"e": "clear"})
+                elif a["k"] == "accept":
+                    ev.append({"e": "write", "o": {"k": "acceptabs", "j": a["j"], "r": a["r"]}})
+                elif a["k"] == "error":
+                    ev.append({"e": "write", "o": {"k": "eagain" if (i + k) % 2 else "epipe"}})
+                else:
+                    ev.append({"e": "write", "o": {"k": a["k"]}})
+            f.write(json.dumps({"run": i, "fam": 0, "cmp": ["wres", "calls", "sent", "pending", "offered"], "limit": [5, 1, 2, 0, 0],
+                                "ev": ev, "note": "genwrite"}) + "\n")
+    trace = os.path.join(V.WORK, tag + ".trace")
+    crashes, _ = exec_conn(binpath, scripts, trace, 1800)
+    mism = []
+    for rid, note, evs in run_events(trace):
+        h = hists[rid]
+        calls = [e for e in evs if e["e"] in ("enq", "write", "clear")]
+        if len(calls) != len(h):
+            mism.append({"run": rid, "fields": ["gen:write"], "detail": "number of calls differs"})
+            continue
+        for k, (e, a) in enumerate(zip(calls, h)):
+            if a["e"] != "write":
+                continue
+            exp_all = a["sent"] == a["r"] and a["sent"] > 0
+            got_all = len(e["sent"]) == e["offered"] and e["offered"] > 0
+            if (e["res"]["k"] != a["res"] or e["calls"] != a["calls"] or e["pending"] != a["pending"]
+                    or (a["sent"] == 0) != (len(e["sent"]) == 0) or exp_all != got_all):
+                mism.append({"run": rid, "fields": ["gen:write"], "detail": {"call": k, "expected": a, "got": short(e)}})
+                break
+    res = V.validate_trace("Trace_Conn.tla", TRACE_CFG % 1024, trace, tag, timeout_s=3000)
+    errors = [r for r in res if r["error"]]
+    if errors:
+        raise V.ToolError("trace validation failed to run: %s (%s)" % (errors[0]["error"], errors[0]["shard"]))
+    tm = [m for r in res for m in r["mismatches"]]
+    events = sum(r["consumed"] for r in res)
+    V.log("%s: every history of %d calls of Gen_Write (MaxLen %d): %d histories replayed on the real connection, %d events validated (%.0fs), %d+%d mismatches, %d crashes"
+          % (tag, depth, maxlen, len(hists), events, time.time() - t0, len(mism), len(tm), len(crashes)))
+    return {"histories": len(hists), "depth": depth, "maxlen": maxlen, "scripts": scripts, "trace": trace, "mismatches": mism, "trace_mismatches": tm,
+            "crashes": crashes, "events": events, "states": sum(r["states"] for r in res)}
+
 # ---------------------------------------------------------------------------
 # binding self-test: corrupt ONE logged observable of a recorded trace and require TLC to object
 # ---------------------------------------------------------------------------
@@ -415,7 +499,7 @@ def evidence_from_trace(pid, traces):
                 distinct.add(h)
     return evals, len(distinct), samples
 
-def conn_property(pid, tier, seed, models, drivers, assumptions, design_ref, extra_fn=(), extra_srv=(), gen_replay=False):
+def conn_property(pid, tier, seed, models, drivers, assumptions, design_ref, extra_fn=(), extra_srv=(), gen_replay=False, gen_write=False):
     t0 = time.time()
     known = [k for k in V.load_known() if k["property"] == pid]
     violations, known_hits, oop = [], [], 0
@@ -501,6 +585,26 @@ def conn_property(pid, tier, seed, models, drivers, assumptions, design_ref, ext
             script = load_script(gres["scripts"], m["run"])
             sig = "gen|small|%s" % ",".join(sorted(mine))
             violations.append((sig, V.save_replay(pid, {"property": pid, "level": "conn", "build": "small", "script": script, "signature": sig, "mismatch": m})))
+    gwres = None
+    if gen_write:
+        gwres = gen_write_replay(pid, tier, seed)
+        evals += gwres["histories"]
+        distinct += gwres["histories"]
+        seen_runs = set()
+        for m in gwres["mismatches"] + gwres["trace_mismatches"]:
+            fields = set(m.get("fields", []))
+            mine = fields & (proj | {"gen:write"})
+            if not mine:
+                oop += 1
+                continue
+            if m.get("run") in seen_runs:
+                continue
+            seen_runs.add(m.get("run"))
+            script = load_script(gwres["scripts"], m.get("run"))
+            sig = "genwrite|full|%s" % ",".join(sorted(mine))
+            violations.append((sig, V.save_replay(pid, {"property": pid, "level": "conn", "build": "full", "script": script, "signature": sig, "mismatch": m})))
+        for c in gwres["crashes"]:
+            oop += 1
     sres = []
     for i, (kind, domain, nq, nt) in enumerate(extra_srv):
         if kind == "gen":
@@ -530,6 +634,8 @@ def conn_property(pid, tier, seed, models, drivers, assumptions, design_ref, ext
         "evaluations": evals,
         "distinct_nontrivial": distinct,
         "spec_to_impl": ({"tlc_generated_behaviours_replayed": gres["behaviours"], "reads": gres["reads"], "mismatches": len(gres["mismatches"])} if gres else None),
+        "spec_to_impl_write": ({"every_history_of_calls_up_to": gwres["depth"], "abstract_response_lengths": gwres["maxlen"], "histories_replayed": gwres["histories"],
+                                "trace_events_validated": gwres["events"], "mismatches": len(gwres["mismatches"]) + len(gwres["trace_mismatches"])} if gwres else None),
         "server_histories": [{"build": s["kind"], "domain": s["domain"], "trace_events_validated": s["events"], "divergent_histories": len(s["mismatches"])} for s in sres],
         "rule": RULES[pid],
         "exhaustive": False,
@@ -572,7 +678,7 @@ TABLE = {
     "C04": lambda tier, seed: conn_property("C04", tier, seed, conn_models(tier), [("full", "C04"), ("small", "C04")], CONN_ASSUME, "DESIGN.md 6 C04",
                                             extra_srv=[("full", "C04", 200, 2000)], gen_replay=True),
     "C06": lambda tier, seed: conn_property("C06", tier, seed, ["mc_write"], [("full", "C06")], CONN_ASSUME, "DESIGN.md 6 C06",
-                                            extra_srv=[("full", "C07pipe", 150, 1500)]),
+                                            extra_srv=[("full", "C07pipe", 150, 1500)], gen_write=True),
     "C11": lambda tier, seed: conn_property("C11", tier, seed, conn_models(tier), [("full", "C11"), ("small", "C11")], CONN_ASSUME, "DESIGN.md 6 C11",
                                             extra_srv=[("full", "C09", 150, 1500)], gen_replay=True),
     "C12": lambda tier, seed: conn_property("C12", tier, seed, ["conn_files", "srv_fdsq" if tier == "quick" else "srv_fds"], [("full", "C12")], CONN_ASSUME, "DESIGN.md 6 C12",
